@@ -21,11 +21,14 @@ import (
 
 // Spec of one program. Scopes are named R (root), C (child of R), G (child of C), I (isolated child of R).
 type Spec struct {
-	Scopes   []string            `json:"scopes"`   // subset of R,C,G,I (R always)
-	Tasks    map[string][]string `json:"tasks"`    // scope -> task bodies: none|err|kill|stop|yield
-	FailOn   string              `json:"fail_on"`  // "" or "<scope>:<event>" - a listener returning an error
+	Scopes   []string            `json:"scopes"`  // subset of R,C,G,I (R always)
+	Tasks    map[string][]string `json:"tasks"`   // scope -> task bodies: none|err|kill|stop|yield
+	FailOn   string              `json:"fail_on"` // "" or "<scope>:<event>" - a listener returning an error
 	Bound    int                 `json:"bound"`
 	LateTask bool                `json:"late_task"` // the task reports its error only after the closer has started (forced order)
+	// SecondCloser: once the root's closer is inside Close (waiting for the late task), ANOTHER goroutine
+	// calls Close on the root as well: it must be refused loudly, not answered
+	SecondCloser bool `json:"second_closer,omitempty"`
 }
 
 // (a list, not a map keyed by the ids: should two event ids ever coincide, both recorders are
@@ -48,19 +51,20 @@ type logEntry struct {
 }
 
 type obs struct {
-	log       []logEntry
-	seq       int
-	doneStep  map[string][]int // scope -> steps at which its tasks called DoneTask
-	closeErr  map[string]error
-	closeRet  map[string]int
-	errsAtEnd map[string]int
-	second    map[string]string // result of the second Close: "panic"/"returned"
-	logAfter  int
-	scopes    map[string]app.Scope
-	isoDone   bool
-	done      bool
-	tasks     map[string][]string // accepted task bodies per scope
-	injected  map[string]bool // scopes that received an error (task or listener) before their wait could end
+	log              []logEntry
+	seq              int
+	doneStep         map[string][]int // scope -> steps at which its tasks called DoneTask
+	closeErr         map[string]error
+	closeRet         map[string]int
+	errsAtEnd        map[string]int
+	second           map[string]string // result of the second Close: "panic"/"returned"
+	logAfter         int
+	scopes           map[string]app.Scope
+	isoDone          bool
+	done             bool
+	tasks            map[string][]string // accepted task bodies per scope
+	injected         map[string]bool     // scopes that received an error (task or listener) before their wait could end
+	concurrentSecond string              // outcome of a second Close issued while the first one was waiting
 }
 
 var errTask = errors.New("task-error")
@@ -193,6 +197,24 @@ func build(sp Spec, o *obs) func() {
 				o.errsAtEnd[n] = len(s.Errors())
 			})
 		}
+		if sp.SecondCloser {
+			wg.Add(1)
+			vsched.Spawn(func() {
+				defer wg.Done()
+				for !started["R"] {
+					vsched.Yield()
+				}
+				func() {
+					defer func() {
+						if r := recover(); r != nil {
+							o.concurrentSecond = "panic"
+						}
+					}()
+					err := root.Close()
+					o.concurrentSecond = fmt.Sprintf("returned %v", err)
+				}()
+			})
+		}
 		wg.Wait()
 		o.logAfter = len(o.log)
 		// closing twice is refused loudly
@@ -236,6 +258,9 @@ func judge(sp Spec, o *obs) func(x *explore.Exec) *explore.Verdict {
 	return func(x *explore.Exec) *explore.Verdict {
 		if !o.done {
 			return &explore.Verdict{Kind: "not-finished", Clause: "Close returns once tasks are done and children closed", Detail: "the harness did not finish"}
+		}
+		if sp.SecondCloser && o.concurrentSecond != "panic" {
+			return &explore.Verdict{Kind: "concurrent-second-close-not-refused", Clause: "closing twice is refused loudly rather than repeating the events", Detail: fmt.Sprintf("a second Close issued by another goroutine while the first one was waiting for a task %s (expected: refused with a panic)\nlog: %s", o.concurrentSecond, renderLog(o.log))}
 		}
 		v := func(kind, clause, format string, a ...interface{}) *explore.Verdict {
 			return &explore.Verdict{Kind: kind, Clause: clause, Detail: fmt.Sprintf(format, a...) + "\nevent log: " + renderLog(o.log)}
@@ -508,6 +533,12 @@ func programs(thorough bool) []Spec {
 		for _, body := range []string{"err", "kill", "stop"} {
 			ps = append(ps, Spec{Scopes: t, Tasks: map[string][]string{last: {body}}, LateTask: true, Bound: b})
 		}
+		// ... and a second goroutine that calls Close on the root meanwhile
+		if len(t) <= 2 && last != "I" {
+			for _, body := range []string{"err", "yield"} {
+				ps = append(ps, Spec{Scopes: t, Tasks: map[string][]string{"R": {body}}, LateTask: true, SecondCloser: true, Bound: b})
+			}
+		}
 	}
 	return ps
 }
@@ -519,6 +550,9 @@ func mkProgram(sp Spec) *explore.Program {
 	name := strings.Join(sp.Scopes, "") + ":" + fmt.Sprint(sp.Tasks) + ":" + sp.FailOn
 	if sp.LateTask {
 		name += ":late"
+	}
+	if sp.SecondCloser {
+		name += ":second-closer"
 	}
 	return &explore.Program{Prop: "C11", Name: name, Spec: sp,
 		Opt:  explore.Options{Bound: sp.Bound, Focus: focus, MaxSteps: 8000, HBR: true, NoShard: true},
@@ -561,7 +595,7 @@ func replay(wj json.RawMessage) (*fw.Violation, error) {
 
 func init() {
 	fw.Register(&fw.Check{ID: "C11", Level: "model_checking",
-		Rule: "programs = scope tree {root; +shared child; +isolated child; +child+grandchild; +shared+isolated} x task bodies {none, AppendError, Kill, Stop, yield, Stop-then-Kill, Stop-then-AppendError, create-and-close a child scope while another task ends the scope} in the deepest scope / the root / two per scope x a listener returning an error on {BeforeClose, BeforeCommit, Commit, Rollback, AfterClose} x tasks that report their failure only after the closer is inside Close; one closer thread per scope, one thread per task, recorders on all 11 events on the root (twice) and on every child; every schedule with <= bound preemptions; oracle on the global-step event log as described in DESIGN.md 3/C11. states = distinct schedule traces",
-		Run: run, Replay: replay,
+		Rule: "programs = scope tree {root; +shared child; +isolated child; +child+grandchild; +shared+isolated} x task bodies {none, AppendError, Kill, Stop, yield, Stop-then-Kill, Stop-then-AppendError, create-and-close a child scope while another task ends the scope} in the deepest scope / the root / two per scope x a listener returning an error on {BeforeClose, BeforeCommit, Commit, Rollback, AfterClose} x tasks that report their failure only after the closer is inside Close (4 of these programs with a second goroutine calling Close on the root meanwhile: refused loudly); one closer thread per scope, one thread per task, recorders on all 11 events on the root (twice) and on every child; every schedule with <= bound preemptions; oracle on the global-step event log as described in DESIGN.md 3/C11. states = distinct schedule traces",
+		Run:  run, Replay: replay,
 		Assumptions: []string{"commit/rollback is only judged when the error source is ordered before (or there is no error source at all for) the scope's wait end", "preemption bounds as reported; 1-2 tasks per scope, depth <= 3"}})
 }
